@@ -14,7 +14,7 @@ PROP = {
                   "validations, conditional formatting WITH its dxf table (the table does not grow on the second save), sheet list, merges, comments, hyperlinks, defined names. "
                   "C04_workbook_fixpoint: for a projection with any numbers of sheets / cells / style components / annotations, resave b = some g1 => g1 = normBook b (explicit), "
                   "resave g1 = some g1, the hypotheses hold for g1 again, and the getter-level view of g1 is that of b. C04_edit_local_book: an edit of one cell that keeps it written "
-                  "commutes with save+load, everything else unchanged. C04_save_pure_book: one save+load does not depend on the save environment (authors hash-set order, first "
+                  "and sets a definite value (it commutes with resolving a lazy value) commutes with save+load, everything else unchanged. C04_save_pure_book: one save+load does not depend on the save environment (authors hash-set order, first "
                   "relationship id, writer flavour). The older corollaries stay (attribute channel over n generations, C04_bytes_resave_stable at character level). "
                   "Tie and the non-modelled part: corpus files and generated annotated workbooks are taken through three load/save generations with the FULL public-getter view compared "
                   "(gen1 == gen2 == gen3, orig == gen1, part lists of two saves equal, single-cell edit locality); for generated workbooks (with values whose normal form is not the "
@@ -42,7 +42,7 @@ PROP = {
             "norm requests (generated workbooks; once original -> generation 1, once generation 1 -> generation 2) = per sheet one each for hf / margins / views / tab / cells, up to 8 fonts, up to 12 rows and 12 columns. "
             "non-trivial = attr and norm requests and case headers; distinct = distinct request line",
     "trusted_base": TB_COMMON + ["models of C01 / C05 / C06 / C12 / XmlEsc (each tied by its own check)", "harness full_view over the public getters; has-value states from the Debug rendering"],
-    "assumptions": ["fewer than 2^64 distinct strings / dxf entries; cells satisfy C01's cellOK (no unresolved lazy values, no rich text under a formula, no rich text without runs)",
+    "assumptions": ["fewer than 2^64 distinct strings / dxf entries; cells satisfy C01's cellOK (no rich text without runs)",
                     "style values are ones a Rust struct can hold (Range: numbers in their types, float fields hold float texts cf t = t, cf \"0\" = \"0\"); for the getter-level view of fonts / fills / "
                     "borders: colours in one of the setters' forms (OneForm / Fill.WF / Borders.WF; Borders.WF is also needed for idempotence of the borders normal form)",
                     "annotation values satisfy the WF / RangesOK / BlockWF / AreaOK predicates of the C06 theorems (coordinates up to ZZZ / u32 rows, printable range shapes, u32 counters)",
